@@ -26,7 +26,9 @@ LEVEL_TEXT = ("Lean theorems over Model/Transfer.lean (DataServer.recv_loop / ma
               "announcements + failures reported at the announce stage + store jobs between close and callback, and the executor forwards each "
               "announcement to the controller exactly once; once the data server has handled a purge - also when it overtook the payload and "
               "shm never held the dataset - nothing of it is stored, announced, sent or held there again; the shm purge is issued with no "
-              "future of that dataset in progress; a due unconfirmed transfer is re-submitted by the next iteration, per index (independent "
+              "future of that dataset in progress, and EVERY job that was in flight when the message loop reached the purge - any number of "
+              "them (a replicated dataset: several sends and stores of it at once), of any dataset, at any stage - has come to its end before "
+              "the purge request (c07_purge_waits_every_job, _tick); a due unconfirmed transfer is re-submitted by the next iteration, per index (independent "
               "of other confirmations), never after its ack or the purge; every DatasetTransmitFailure raised is forwarded to the controller "
               "exactly once; the executor forwards a purge iff the dataset is in Executor.datasets, which holds iff its last action about it "
               "was the announcement. Existence half of 'exactly one copy' as progress theorems from quiescent hosts (_partial): a payload "
@@ -47,7 +49,7 @@ LEVEL_NOTE = ("modelled, not verified: data_server.py DataServer (recv_loop, may
               "executor's socket")
 TECHNIQUE = ("Lean 4 proof: inductive invariant (13 conjuncts) over all interleavings of micro steps (main loop, pool-job stages with faults, "
              "executor, lossy/duplicating network), refinement of the recv_loop iteration to micro steps, symbolic evaluation for the progress "
-             "theorems + differential correspondence with real DataServer / Executor shells over the real shm stack + property oracle")
+             "theorems, index-based induction over the pool's wait for the every-job theorem + differential correspondence with real DataServer / Executor shells over the real shm stack + property oracle")
 LEAN_PROPS = ["EkwVerif.Props.C07"]
 LEAN_DRIVERS = ["C07"]
 RULE = ("random histories over 2-3 hosts and 1-3 datasets, commands built by the real Bridge.transmit/fetch: transfer and fetch commands (delivered "
@@ -56,8 +58,11 @@ RULE = ("random histories over 2-3 hosts and 1-3 datasets, commands built by the
         "recv_loop iterations fed with 0-3 frames (taken or duplicated, any order) batched with commands/purges, executor iterations, frame "
         "drops, controller receptions, pool jobs run to their end or stage by stage in any order (70% of the histories), faults at every stage "
         "(35% of the histories: allocate wait/capacity, get wait, writer close refused, announce push raising, send_data raising, reader close "
-        "raising after the send), clock advances around the 4 s grace; 30% of the histories open with a directed situation (a later transfer "
-        "acked while an earlier payload of the same source was lost; purge overtaking the payload; redundant payload after the purge); followed "
+        "raising after the send), clock advances around the 4 s grace; 45% of the histories open with a directed situation (a later transfer "
+        "acked while an earlier payload of the same source was lost; purge overtaking the payload; redundant payload after the purge; a "
+        "REPLICATED dataset: 2-3 jobs of one dataset - sends to different targets / the controller, stores of redundant payloads from two "
+        "sources, a send next to a store - in flight on one host when its purge is handled, i.e. commands, payload frames and the purge in one "
+        "recv_messages batch or one job carried over with its read open, the scheduler oracle deciding which job the pool finishes first); followed "
         "by a loss-free drain. non-trivial = history with >=1 transfer and at least one drop, duplicate or purge; distinct by content hash")
 ASSUMPTIONS = [
     "zmq sockets/poller, the UDP socket between shm client and shm server, the thread pool and time_ns are replaced by in-process fakes; the "
@@ -125,6 +130,96 @@ def _fault_for(rng, job):
     if job.stage == 0:
         return "fail", "wait"
     return rng.choice(["fail", "closeExc", "closeExc"]), "wait"
+
+
+def _open_replicated(rng, w, case, nds, emit, holders, cmd, frame_of):
+    """A REPLICATED dataset: two or three jobs of ONE dataset are in flight on one host at the moment its purge is
+    handled - sends to different targets (transfer / fetch), stores of redundant payloads from different sources,
+    or a send next to a store.  `maybe_clean` at the head of every iteration brings the futures down to fewer
+    than `cap` = 2, so the jobs must have been submitted by the SAME iteration that reads the purge (commands,
+    payload frames and the purge in one `recv_messages` batch), or one is carried over from an earlier iteration
+    (possibly stopped after its shm get: an open read) and the others come with the purge.  Which job the pool
+    finishes first is the scheduler oracle `sched`: every other one is the late one."""
+    variants = []
+    for d in range(nds):
+        hs = holders(d)
+        if hs:
+            variants.append(("sends", d, hs))
+        if len(hs) >= 2 and len(hs) < len(w.hosts):
+            variants.append(("stores", d, hs))
+        if len(hs) >= 2:
+            variants.append(("send+store", d, hs))
+    if not variants:
+        return
+    kind, d, hs = rng.choice(variants)
+    sched = [rng.randint(0, 3) for _ in range(rng.randint(0, 4))]
+    purge = {"k": "purge", "ds": d}
+
+    def run_all(h):
+        while w.pools[h].jobs:
+            emit({"op": "job", "h": h, "c": 0})
+
+    def frame_inputs(idxs, dup_p=0.0):
+        """inputs feeding the payload frames of the transfers `idxs` (sequential indices into the net)"""
+        cur = list(range(len(w.net)))
+        items = []
+        for ix in idxs:
+            p = frame_of(ix)
+            if p is None or p not in cur:
+                continue
+            dup = rng.random() < dup_p
+            i = cur.index(p)
+            if not dup:
+                cur.pop(i)
+            items.append({"k": "frame", "i": i, "dup": dup})
+        return items
+
+    if kind == "sends":
+        src = rng.choice(hs)
+        tg = [h for h in w.hosts if h != src] + [0]
+        rng.shuffle(tg)
+        tg = tg[:rng.randint(2, min(3, len(tg)))]
+        cs = [cmd(d, src, t) for t in tg]
+        if rng.random() < 0.5:
+            # everything in one batch: the commands, then the purge
+            emit({"op": "tick", "h": src, "inputs": cs + [purge], "sched": sched})
+        else:
+            # the first send is already in flight (maybe stopped with its read open) when the others and the purge come
+            emit({"op": "tick", "h": src, "inputs": [cs[0]], "sched": []})
+            if rng.random() < 0.6:
+                emit({"op": "jobstep", "h": src, "c": 0, "fault": "none"})
+            emit({"op": "tick", "h": src, "inputs": cs[1:] + [purge], "sched": sched})
+        host = src
+    elif kind == "stores":
+        tgt = rng.choice([h for h in w.hosts if h not in hs])
+        srcs = rng.sample(hs, 2)
+        cs = [cmd(d, s, tgt) for s in srcs]
+        for s, c in zip(srcs, cs):
+            emit({"op": "tick", "h": s, "inputs": [c], "sched": []})
+            run_all(s)
+        fr = frame_inputs([c["idx"] for c in cs], dup_p=0.15)
+        if rng.random() < 0.5 or len(fr) < 2:
+            emit({"op": "tick", "h": tgt, "inputs": fr + [purge], "sched": sched})
+        else:
+            emit({"op": "tick", "h": tgt, "inputs": fr[:1], "sched": []})
+            if rng.random() < 0.6:
+                emit({"op": "jobstep", "h": tgt, "c": 0, "fault": "none"})
+            emit({"op": "tick", "h": tgt, "inputs": frame_inputs([cs[1]["idx"]]) + [purge], "sched": sched})
+        host = tgt
+    else:
+        # a redundant payload for a holder that is itself sending the dataset on
+        h, s2 = rng.sample(hs, 2)
+        c0 = cmd(d, s2, h)
+        emit({"op": "tick", "h": s2, "inputs": [c0], "sched": []})
+        run_all(s2)
+        c1 = cmd(d, h, rng.choice([t for t in w.hosts if t != h] + [0]))
+        fr = frame_inputs([c0["idx"]])
+        ins = fr + [c1] if rng.random() < 0.5 else [c1] + fr
+        emit({"op": "tick", "h": h, "inputs": ins + [purge], "sched": sched})
+        host = h
+    # what the late job does once the pool gets to it
+    run_all(host)
+    case.setdefault("opening", "replicated-purge:" + kind)
 
 
 def gen_case(rng, nops, with_run=False):
@@ -274,6 +369,8 @@ def _gen_ops(rng, nops, w, case, nds, outs):
             if i is not None:
                 feed_frame(tgt, i)
             case.setdefault("opening", "redundant-payload-after-purge")
+    elif x < 0.48:
+        _open_replicated(rng, w, case, nds, emit, holders, cmd, frame_of)
 
     attempts = 0
     while len(ops) < nops and attempts < 4 * nops:
